@@ -134,8 +134,8 @@ def run(tier):
                 p, lo, hi = block_prob(ref, m, n)
                 pref *= p
                 factors.append((lo, hi))
-            if pref < 1e-12 and len(case.blocks) > 1:
-                continue
+            if pref < 1e-9:
+                continue          # the statement quantifies over chain lengths with non-negligible mass
             smi = case.build(ns)
             ps = Chem.SmilesParserParams()
             ps.removeHs = False            # molecules capped with [H] tokens are queried with their explicit hydrogens
@@ -170,7 +170,7 @@ def run(tier):
                         break
             if len(samples) < 5 and ns[b] == modal[b]:
                 samples.append({"molecule": case.text, "query": smi, "reported": p_impl, "closed_form": pref})
-        if len(case.blocks) == 1 and total_ref > 1 - 1e-6:
+        if len(case.blocks) == 1 and total_ref > 1 - 1e-6 and not case.probe:
             records.append({"kind": "total", "total": sc(total_impl), "tol": sc(max(1e-6, 20 * tolfam))})
             meta.append((case, "", f"sum over chain lengths 1..{NMAX}: {total_impl}"))
         # molecules outside the ensemble
